@@ -135,14 +135,14 @@ pub fn c04_bfs_distances_array_n4() {
     bfs_distances_array::<4>();
 }
 
-// @verif prop=C04 tier=thorough fl=f2 role=bfs/array t=3600 mem=24
+// @verif prop=C04 tier=thorough fl=f2 role=bfs/array t=3600 mem=16
 #[cfg_attr(kani, kani::proof)]
 #[cfg_attr(kani, kani::unwind(7))]
 pub fn c04_bfs_array_n5() {
     bfs_array::<5>();
 }
 
-// @verif prop=C04 tier=thorough fl=f2 role=bfs-dist/array t=3600 mem=24
+// @verif prop=C04 tier=thorough fl=f2 role=bfs-dist/array t=3600 mem=16
 #[cfg_attr(kani, kani::proof)]
 #[cfg_attr(kani, kani::unwind(7))]
 pub fn c04_bfs_dist_array_n5() {
